@@ -364,3 +364,5 @@ PROPS["C10"]["mir"] += [ob("option_filter_merge", "ob_filters", "option_filter_m
                         ob("bloom_ctor_invariant", "ob_bloom", "bloom_ctor_invariant")]
 PROPS["C11"]["mir"] += [ob("dump_order_c11", "ob_blob", "dump_order"), ob("delete_core_sum_c11", "ob_delete", "delete_core_sum")]
 PROPS["C13"]["mir"].append(ob("send_msg_delivers", "ob_worker", "send_msg_delivers"))
+PROPS["C09"]["mir"].append(ob("read_headers_file_order", "ob_tree", "read_headers_file_order"))
+PROPS["C02"]["mir"].append(ob("read_headers_file_order_c02", "ob_tree", "read_headers_file_order"))
